@@ -67,6 +67,10 @@ type Sched struct {
 	// StarveFrom[i] = k: operation i is released normally k times before Starve applies to it (k = 1: it stalls
 	// after its first step, e.g. after a check and before the action the check was meant to guard).
 	StarveFrom map[int]int
+	// StarveAt[i] = prefix: operation i is held back (under the same condition on the number of moves) only while it is
+	// parked at a point whose name begins with prefix - "the request pauses right before that kind of step" - and
+	// moves freely everywhere else (StarveFrom is not consulted for it).
+	StarveAt map[int]string
 }
 
 func goid() string {
@@ -210,8 +214,14 @@ func (s *Sched) Run(run func(i int) any, schedule []int) (res []Result, moves []
 		if len(s.Starve) > 0 {
 			var kept []int
 			for _, a := range enabled {
-				if a >= n && steps < s.Starve[a-n] && released[a-n] >= s.StarveFrom[a-n] {
-					continue
+				if a >= n && steps < s.Starve[a-n] {
+					if pfx, ok := s.StarveAt[a-n]; ok && pfx != "" {
+						if strings.HasPrefix(at[a-n], pfx) {
+							continue
+						}
+					} else if released[a-n] >= s.StarveFrom[a-n] {
+						continue
+					}
 				}
 				kept = append(kept, a)
 			}
